@@ -197,6 +197,7 @@ def plan(tier, seed):
                  ('mix-pd-rel', 'release', 'cache_trace', ['gen', str(seed + 5), '150', '50', 'mix', 'pd']),
                  ('mix-dp-rel', 'release', 'cache_trace', ['gen', str(seed + 6), '150', '50', 'mix', 'dp']),
                  ('mix-df-dbg', 'debug', 'cache_trace', ['gen', str(seed + 7), '150', '50', 'mix', 'df']),
+                 ('mix-dn-rel', 'release', 'cache_trace', ['gen', str(seed + 8), '150', '50', 'mix', 'dn']),
                  ('exh2-dbg', 'debug', 'cache_trace', ['exhaust', '2', '0', '1']),
                  ('panic-dbg', 'debug', 'panic_trace', [str(seed), '10', '6', '16']),
                  ('panic-rel', 'release', 'panic_trace', [str(seed + 1), '14', '9', '16'])]
@@ -205,7 +206,7 @@ def plan(tier, seed):
                  ('exh4-h0-rel', 'release', 'cache_trace', ['exhaust', '4', '1', '0']), ('exh4-h1-dbg', 'debug', 'cache_trace', ['exhaust', '4', '1', '1'])]
         jobs.append(('clog-rel', 'release', 'cache_trace', ['gen', '0', '4100', '9', 'clog']))
         jobs.append(('clog-dbg', 'debug', 'cache_trace', ['gen', '0', '4100', '9', 'clog']))
-        for ty in ('pd', 'dp', 'df'):
+        for ty in ('pd', 'dp', 'df', 'dn'):
             jobs.append(('mix-%s-rel' % ty, 'release', 'cache_trace', ['gen', str(seed * 100 + 95), '3000', '70', 'mix', ty]))
             jobs.append(('churn-%s-rel' % ty, 'release', 'cache_trace', ['gen', str(seed * 100 + 96), '60', '700', 'churn', ty]))
             jobs.append(('forget-%s-dbg' % ty, 'debug', 'cache_trace', ['gen', str(seed * 100 + 97), '600', '40', 'forget', ty]))
